@@ -30,6 +30,12 @@ func NewGen(seed int64, profile string) *Gen {
 	// half of the histories start with a scenario template (chosen by the history's own seed:
 	// a separate stream, so that the random part of old seeds is unchanged)
 	sr := rand.New(rand.NewSource(seed ^ 0x5ce9a210))
+	if profile == "many" {
+		g.Scenario = "many"
+		g.script = manyScript()
+		g.stepNo = 3
+		return g
+	}
 	if strings.HasPrefix(profile, "bulk") {
 		n := 520
 		fmt.Sscanf(profile, "bulk%d", &n)
